@@ -21,16 +21,16 @@ ASSUMPTIONS = ['identity comparisons are only generated against None/True/False 
                'the harness renderer is self-checked on every case: Python\'s own ast of the text given to the parser (with $x '
                'spelt rec.x) must equal the ast of the reference text up to Tuple->List, otherwise the case is a harness error '
                '(inconclusive), never a violation']
-REQUIRED = {'subset_evaluations': {'quick': 45000, 'thorough': 600000}, 'subset_trees': {'quick': 12000, 'thorough': 160000},
-            'nonsubset_inputs': {'quick': 6000, 'thorough': 70000}, 'nonsubset_rejected_with_SyntaxError': {'quick': 5000, 'thorough': 60000},
-            'trailing_comments': {'quick': 2000, 'thorough': 25000}, 'dollar_references': {'quick': 5000, 'thorough': 60000}}
+REQUIRED = {'subset_evaluations': {'quick': 45000, 'thorough': 2000000}, 'subset_trees': {'quick': 12000, 'thorough': 500000},
+            'nonsubset_inputs': {'quick': 6000, 'thorough': 200000}, 'nonsubset_rejected_with_SyntaxError': {'quick': 5000, 'thorough': 180000},
+            'trailing_comments': {'quick': 2000, 'thorough': 80000}, 'dollar_references': {'quick': 5000, 'thorough': 200000}}
 SHARD_TIMEOUT = {'quick': 200, 'thorough': 900}
 
 COMMENTS = ['note', ' spaced  ', 'has "quotes"', "it's", '$a == 1', '# double', 'rec.a', '', 'é', 'x = 1)']
 
 
 def plan(tier, seed):
-  ns, nn, per = (9, 4, 2000) if tier == 'quick' else (30, 12, 8000)
+  ns, nn, per = (9, 4, 2000) if tier == 'quick' else (30, 12, 25000)
   specs = [{'witness': 'const_not_json'}, {'witness': 'kwargs_splat'}, {'kind': 'triggers', 'hseed': seed * 100003 + 4000, 'n': 300}]
   specs += [{'kind': 'subset', 'hseed': seed * 100003 + 4001 + i, 'n': per} for i in range(ns)]
   specs += [{'kind': 'nonsubset', 'hseed': seed * 100003 + 4500 + i, 'n': per} for i in range(nn)]
